@@ -223,8 +223,7 @@ func (d *Driver) Open() (reterr error) {
 
 	select {
 	case <-d.done:
-		// opening again after a Close: the done signal of the previous session is used up, and the
-		// hello is framed with the 1.0 delimiter whatever the previous session had negotiated. the read
+		// opening again after a Close: the done signal of the previous session is used up. the read
 		// loop of that session must be gone before the signal is replaced, or it would live on
 		if d.readDone != nil {
 			select {
@@ -235,9 +234,12 @@ func (d *Driver) Open() (reterr error) {
 
 		d.done = make(chan bool)
 		d.closeOnce = sync.Once{}
-		d.Channel.PromptPattern = getNetconfPatterns().v1Dot0Delim
 	default:
 	}
+
+	// the hello is always framed with the 1.0 delimiter, whatever an earlier session -- or an earlier
+	// attempt to open that failed after it had selected 1.1 -- left behind
+	d.Channel.PromptPattern = getNetconfPatterns().v1Dot0Delim
 
 	err := d.Channel.Open()
 	if err != nil {
